@@ -7,13 +7,16 @@ import VProofs.Lemmas.UseAsm
 import VProofs.Lemmas.UseTag
 import VProofs.Lemmas.TrainCli
 import VProofs.Lemmas.ScoreWindow0b
+import VProofs.Lemmas.QuantAll
+import VProofs.Lemmas.QuantBits
 /-!
 # C11 — Training is total and its output is always usable
 
 What a theorem can carry here is the bookkeeping around the learner: assembling never panics, the assembled model is
 well-formed, and every well-formed model is accepted by the predictor and predicts/tags without panicking.  liblinear itself
-(its error returns, label order, NaN) and the `f64` quantisation are the runtime remainder, covered by the solver sweep of
-the check (all eight solvers × sizes incl. 0 × six corpus kinds, each followed by write → read → predict + fill_tags).
+(its error returns, label order, NaN) is the runtime remainder, covered by the solver sweep of
+the check (all eight solvers × sizes incl. 0 × six corpus kinds, each followed by write → read → predict + fill_tags); the `f64`
+quantisation of the learned weights is modelled exactly (`VModel/Quantize.lean`) and treated in the last section of this file.
 Property theorems only (helper lemmas live in `VProofs/Lemmas/Use*.lean`).
 -/
 namespace V
@@ -311,3 +314,348 @@ example : predict {} true = .ok [2, -51] := by decide
 end C11Ex0
 
 end V
+
+/-! ## the `f64` quantisation of `Trainer::train` / `TagTrainer::train`, inside the model (`VModel/Quantize.lean`)
+
+`weight_max / 32767.0`, `raw / multiplier` and `to_int_unchecked::<i32>` are modelled exactly (IEEE-754 binary64, round to
+nearest even, subnormals, ±∞/NaN; a finite value is a sign and a number of units `2^-1074`).  The claim "every returned model
+contains only weights within the signed 16-bit range" is TRUE from `weight_max ≥ 2^-1045` on (`C11_quantise_range`,
+`C11_quantise_total`) and FALSE below (`weight_max = 2^-1059` or `(2^29 − 2^15)·2^-1074` give the weight 32768; `49150·2^-1074`
+gives 49150): there the multiplier is a subnormal with fewer than 15 significant bits and its rounding error alone exceeds
+`2^-15`.  Undefined behaviour (`to_int_unchecked` on NaN/∞/out of `i32`) is impossible for finite inputs whatever their size
+(`C11_quantise_no_ub`); with a NaN or infinite coefficient it does occur (examples at the end).
+Helper lemmas: `VProofs/Lemmas/Quant{Round,Grid,Main,All,Bits}.lean`. -/
+namespace V
+open F64
+
+/-- the threshold `T = 2^-1045` (bit pattern `0x0000000020000000`, `2^29` units of `2^-1074`) -/
+abbrev C11_quantThreshold : F64 := QuantL.quantThreshold
+
+example : C11_quantThreshold = .fin false (2 ^ 29) ∧ C11_quantThreshold = F64.ofBits 0x20000000 :=
+  ⟨QuantL.quantThreshold_eq, rfl⟩
+
+/-- **range**: for finite `x`, `M` with `|x| ≤ M` and `M ≥ T = 2^-1045`, `x / (M / 32767.0)` truncates to a value within ±32767;
+in particular `to_int_unchecked` is used inside its contract.  (`M ≥ T > 0` makes `M` positive; the statement holds for every
+number of units, i.e. also for "finite values" that are not doubles.) -/
+theorem C11_quantise_range (x M : F64) (hx : x.Finite) (hM : M.Finite)
+    (hxM : f64Le (f64Abs x) M = true) (hT : f64Le C11_quantThreshold M = true) :
+    ∃ w, quantise x (quantMultiplier M) = .ok w ∧ -32767 ≤ w ∧ w ≤ 32767 := by
+  obtain ⟨s, a, rfl, _⟩ := QuantL.finite_cases hx
+  obtain ⟨t, m, rfl, hm⟩ := QuantL.finite_cases hM
+  obtain ⟨rfl, hT'⟩ := QuantL.threshold_le_fin hT
+  have ha := QuantL.abs_le_fin hxM rfl
+  rw [QuantL.quantMultiplier_fin false m hm]
+  obtain ⟨q, hq, hb⟩ := QuantL.quantise_range_units s a m (by omega) ha
+  exact ⟨_, hq, QuantL.sval_bounds s q 32767 hb⟩
+
+/-- the largest `weight_max` for which the range claim fails: `(2^29 − 2^15)·2^-1074` (pattern `0x000000001FFF8000`), just
+below `T`; see `C11QuantEx` for the failure itself -/
+abbrev C11_quantLastBad : F64 := QuantL.quantLastBad
+
+example : C11_quantLastBad = .fin false (2 ^ 29 - 2 ^ 15) ∧ C11_quantLastBad = F64.ofBits 0x1FFF8000 :=
+  ⟨QuantL.quantLastBad_eq, rfl⟩
+
+/-- **range, with the exact bound**: the claim of `C11_quantise_range` holds for every finite `M` that is greater than
+`C11_quantLastBad` (i.e. not `≤` it), and `M = x = C11_quantLastBad` violates it — no magnitude above the last failure fails -/
+theorem C11_quantise_range_sharp (x M : F64) (hx : x.Finite) (hM : M.Finite)
+    (hxM : f64Le (f64Abs x) M = true) (hT : f64Le M C11_quantLastBad = false) :
+    ∃ w, quantise x (quantMultiplier M) = .ok w ∧ -32767 ≤ w ∧ w ≤ 32767 := by
+  obtain ⟨s, a, rfl, _⟩ := QuantL.finite_cases hx
+  obtain ⟨t, m, rfl, hm⟩ := QuantL.finite_cases hM
+  obtain ⟨rfl, hT'⟩ := QuantL.lastBad_lt_fin hT
+  have ha := QuantL.abs_le_fin hxM rfl
+  rw [QuantL.quantMultiplier_fin false m hm]
+  obtain ⟨q, hq, hb⟩ := QuantL.quantise_range_units s a m hT' ha
+  exact ⟨_, hq, QuantL.sval_bounds s q 32767 hb⟩
+
+/-- the same on raw bit patterns, as the hook records them -/
+theorem C11_quantise_range_bits (bx bM : Nat) (hx : (F64.ofBits bx).Finite) (hM : (F64.ofBits bM).Finite)
+    (hxM : f64Le (f64Abs (F64.ofBits bx)) (F64.ofBits bM) = true) (hT : f64Le (F64.ofBits 0x20000000) (F64.ofBits bM) = true) :
+    ∃ w, quantise (F64.ofBits bx) (quantMultiplier (F64.ofBits bM)) = .ok w ∧ -32767 ≤ w ∧ w ≤ 32767 :=
+  C11_quantise_range _ _ hx hM hxM hT
+
+/-- **the whole step, from the threshold on**: for a finite bias and finite coefficients, if `weight_max` is zero the trainer
+returns its error, and if `weight_max ≥ T` it returns quantised values that are all within ±32767 (one per coefficient);
+never `ub`, never `panic` -/
+theorem C11_quantise_total (bias : F64) (coefs : List F64) (hb : bias.Finite) (hc : ∀ c ∈ coefs, c.Finite) :
+    (f64IsZero (weightMax bias coefs) = true → quantiseAll bias coefs = .err .invalidModel) ∧
+    (f64Le C11_quantThreshold (weightMax bias coefs) = true →
+      ∃ b ws, quantiseAll bias coefs = .ok (b, ws) ∧ ws.length = coefs.length ∧
+        (-32767 ≤ b ∧ b ≤ 32767) ∧ ∀ w ∈ ws, -32767 ≤ w ∧ w ≤ 32767) := by
+  obtain ⟨M, hwm, hM, _⟩ := QuantL.weightMax_fin bias coefs hb hc
+  refine ⟨fun hz => ?_, fun hT => ?_⟩
+  · rw [hwm, QuantL.f64IsZero_fin] at hz
+    have hM0 : M = 0 := of_decide_eq_true hz
+    subst hM0
+    exact QuantL.quantiseAll_err bias coefs 0 hwm hM (QuantL.roundUnits_zero _ (by decide))
+  · rw [hwm] at hT
+    have := (QuantL.threshold_le_fin hT).2
+    exact QuantL.quantiseAll_big bias coefs hb hc M hwm (by omega)
+
+/-- the whole step with the exact bound: `weight_max` greater than `C11_quantLastBad` suffices -/
+theorem C11_quantise_total_sharp (bias : F64) (coefs : List F64) (hb : bias.Finite) (hc : ∀ c ∈ coefs, c.Finite)
+    (hT : f64Le (weightMax bias coefs) C11_quantLastBad = false) :
+    ∃ b ws, quantiseAll bias coefs = .ok (b, ws) ∧ ws.length = coefs.length ∧
+      (-32767 ≤ b ∧ b ≤ 32767) ∧ ∀ w ∈ ws, -32767 ≤ w ∧ w ≤ 32767 := by
+  obtain ⟨M, hwm, hM, _⟩ := QuantL.weightMax_fin bias coefs hb hc
+  rw [hwm] at hT
+  exact QuantL.quantiseAll_big bias coefs hb hc M hwm (QuantL.lastBad_lt_fin hT).2
+
+/-- **no undefined behaviour at all** for finite inputs, also below the threshold: the step returns the error or values that
+are within ±32767 or — only when `weight_max < T` — within ±`weight_max / 2^-1074` (< 2^29, so inside `i32` but possibly
+outside `i16`) -/
+theorem C11_quantise_no_ub (bias : F64) (coefs : List F64) (hb : bias.Finite) (hc : ∀ c ∈ coefs, c.Finite) :
+    (quantiseAll bias coefs).Safe ∧
+    (quantiseAll bias coefs = .err .invalidModel ∨
+      ∃ b ws, quantiseAll bias coefs = .ok (b, ws) ∧ ws.length = coefs.length ∧
+        ∀ w ∈ b :: ws, -(2 : Int) ^ 29 < w ∧ w < 2 ^ 29) := by
+  obtain ⟨M, hwm, hM, _⟩ := QuantL.weightMax_fin bias coefs hb hc
+  have key : quantiseAll bias coefs = .err .invalidModel ∨
+      ∃ b ws, quantiseAll bias coefs = .ok (b, ws) ∧ ws.length = coefs.length ∧
+        ∀ w ∈ b :: ws, -(2 : Int) ^ 29 < w ∧ w < 2 ^ 29 := by
+    by_cases hT : 2 ^ 29 ≤ M
+    · obtain ⟨b, ws, h1, h2, h3, h4⟩ := QuantL.quantiseAll_big bias coefs hb hc M hwm (by omega)
+      refine Or.inr ⟨b, ws, h1, h2, fun w hw => ?_⟩
+      rcases List.mem_cons.mp hw with rfl | hw
+      · unfold QuantL.InQ15 at h3; omega
+      · have := h4 w hw; unfold QuantL.InQ15 at this; omega
+    · rcases QuantL.quantiseAll_small bias coefs hb hc M hwm (by omega) with h | ⟨b, ws, h1, h2, h3, h4⟩
+      · exact Or.inl h
+      · refine Or.inr ⟨b, ws, h1, h2, fun w hw => ?_⟩
+        rcases List.mem_cons.mp hw with rfl | hw
+        · omega
+        · have := h4 w hw; omega
+  refine ⟨?_, key⟩
+  rcases key with h | ⟨b, ws, h, _⟩ <;> rw [h] <;> exact trivial
+
+/-- **the scale is used fully**: from the threshold on, a value of maximal magnitude is mapped to ±32767 or ±32766 with its own
+sign (32766 does occur: at `T` itself and for about one maximum in eight, see the examples) -/
+theorem C11_quantise_max (x : F64) (hx : x.Finite) (hT : f64Le C11_quantThreshold (f64Abs x) = true) :
+    ∃ w, quantise x (quantMultiplier (f64Abs x)) = .ok w ∧
+      (x.sign = false → w = 32767 ∨ w = 32766) ∧ (x.sign = true → w = -32767 ∨ w = -32766) := by
+  obtain ⟨s, a, rfl, ha⟩ := QuantL.finite_cases hx
+  have hT' := (QuantL.threshold_le_fin (s := false) (m := a) hT).2
+  have : f64Abs (.fin s a) = .fin false a := rfl
+  rw [this, QuantL.quantMultiplier_fin false a ha]
+  obtain ⟨t, ht, hv⟩ := QuantL.quantise_max_units s a (by omega)
+  refine ⟨_, ht, ?_, ?_⟩
+  · intro hs
+    have hs' : s = false := hs
+    subst hs'
+    unfold F64.sval
+    simp only [Bool.false_eq_true, if_false]
+    omega
+  · intro hs
+    have hs' : s = true := hs
+    subst hs'
+    unfold F64.sval
+    simp only [if_true]
+    omega
+
+/-- … hence every successfully quantised model (from the threshold on) contains a weight of magnitude ≥ 32766 -/
+theorem C11_quantise_all_max (bias : F64) (coefs : List F64) (hb : bias.Finite) (hc : ∀ c ∈ coefs, c.Finite)
+    (hT : f64Le C11_quantThreshold (weightMax bias coefs) = true) (b : Int) (ws : List Int)
+    (h : quantiseAll bias coefs = .ok (b, ws)) :
+    ∃ w ∈ b :: ws, w = 32767 ∨ w = 32766 ∨ w = -32767 ∨ w = -32766 := by
+  obtain ⟨M, hwm, hM, _, ⟨c, hcm, s, hcM⟩⟩ := QuantL.members_bounded bias coefs hb hc
+  rw [hwm] at hT
+  have hT' := (QuantL.threshold_le_fin hT).2
+  obtain ⟨t, ht, hv⟩ := QuantL.quantise_max_units s M (by omega)
+  have hk0 : roundUnits M 32767 ≠ 0 := by
+    intro h0
+    have := QuantL.mult_lower M (by omega)
+    rw [h0] at this
+    omega
+  -- read the two loops off the successful result
+  unfold quantiseAll at h
+  simp only [] at h
+  rw [hwm, QuantL.quantMultiplier_fin false M hM, QuantL.f64IsZero_fin, decide_eq_false hk0] at h
+  simp only [Bool.false_eq_true, if_false] at h
+  have hval : F64.sval s t = 32767 ∨ F64.sval s t = 32766 ∨ F64.sval s t = -32767 ∨ F64.sval s t = -32766 := by
+    unfold F64.sval
+    cases s <;> simp only [Bool.false_eq_true, if_false, if_true] <;> omega
+  cases hqb : quantise bias (.fin false (roundUnits M 32767)) with
+  | ok b' =>
+    rw [hqb, Res.bind_ok] at h
+    cases hl : quantiseList (.fin false (roundUnits M 32767)) coefs with
+    | ok ws' =>
+      rw [hl] at h
+      have hpair : (b', ws') = (b, ws) := by
+        have : Res.ok (b', ws') = Res.ok (b, ws) := h
+        injection this
+      injection hpair with hb' hws'
+      subst hb'; subst hws'
+      rcases hcm with rfl | hcm
+      · rw [hcM, ht] at hqb
+        injection hqb with hqb
+        exact ⟨b', List.mem_cons_self, by rw [← hqb]; exact hval⟩
+      · obtain ⟨w, hw, hq⟩ := QuantL.quantiseList_mem _ coefs ws' hl c hcm
+        rw [hcM, ht] at hq
+        injection hq with hq
+        exact ⟨w, List.mem_cons_of_mem _ hw, by rw [← hq]; exact hval⟩
+    | err e => rw [hl] at h; exact absurd h (by simp [Res.map])
+    | panic p => rw [hl] at h; exact absurd h (by simp [Res.map])
+    | ub p => rw [hl] at h; exact absurd h (by simp [Res.map])
+  | err e => rw [hqb] at h; exact absurd h (by simp)
+  | panic p => rw [hqb] at h; exact absurd h (by simp)
+  | ub p => rw [hqb] at h; exact absurd h (by simp)
+
+/-- **monotone**: for a fixed positive finite multiplier, `x ≤ y` (IEEE comparison) implies `quantise x ≤ quantise y` whenever
+both are defined: the quantised weights are ordered as the learned ones -/
+theorem C11_quantise_mono (x y : F64) (hx : x.Finite) (hy : y.Finite) (k : Nat) (hk : k ≠ 0)
+    (hle : f64Le x y = true) (wx wy : Int)
+    (h1 : quantise x (.fin false k) = .ok wx) (h2 : quantise y (.fin false k) = .ok wy) : wx ≤ wy := by
+  obtain ⟨s, a, rfl, _⟩ := QuantL.finite_cases hx
+  obtain ⟨t, b, rfl, _⟩ := QuantL.finite_cases hy
+  exact QuantL.quantise_mono_units hk (of_decide_eq_true hle) h1 h2
+
+/-- **sign and oddness**: the quantised value has the sign of the raw one (or is 0), and negating the raw value negates it -/
+theorem C11_quantise_sign (s : Bool) (a k : Nat) (hk : k ≠ 0) (w : Int)
+    (h : quantise (.fin s a) (.fin false k) = .ok w) :
+    (s = false → 0 ≤ w) ∧ (s = true → w ≤ 0) ∧ (w ≠ -(2 : Int) ^ 31 → quantise (.fin (!s) a) (.fin false k) = .ok (-w)) := by
+  obtain ⟨hw, hr, ht, hpos⟩ := QuantL.quantise_fin_ok hk h
+  have hthird : roundUnits (a * unit) k / unit < 2 ^ 31 →
+      quantise (.fin (!s) a) (.fin false k) = .ok (F64.sval (!s) (roundUnits (a * unit) k / unit)) := by
+    intro ht'
+    unfold quantise
+    rw [QuantL.f64Div_fin (!s) false a k hk hr, QuantL.bxor_false, QuantL.trunc_fin (!s) _ ht']
+  generalize roundUnits (a * unit) k / unit = q at hw ht hpos hthird
+  subst hw
+  have hneg : F64.sval (!s) q = - F64.sval s q := by
+    unfold F64.sval; cases s <;> simp
+  refine ⟨?_, ?_, ?_⟩
+  · intro hs; subst hs; unfold F64.sval; simp only [Bool.false_eq_true, if_false]; omega
+  · intro hs; subst hs; unfold F64.sval; simp only [if_true]; omega
+  · intro hne
+    rw [← hneg]
+    apply hthird
+    unfold F64.sval at hne
+    cases s
+    · exact hpos rfl
+    · simp only [if_true] at hne; omega
+
+/-- **the tag trainer** (`weight_max` starts at `1e-6 ≥ T`, no zero test): for finite biases and coefficients the quantisation
+of a token's classifier always succeeds with every value within ±32767 -/
+theorem C11_quantise_tag_total (coefs : List F64) (hc : ∀ c ∈ coefs, c.Finite) :
+    ∃ ws, quantiseTagAll coefs = .ok ws ∧ ws.length = coefs.length ∧ ∀ w ∈ ws, -32767 ≤ w ∧ w ≤ 32767 :=
+  QuantL.quantiseTag_total coefs hc
+
+/-- **the model is IEEE-754 binary64**: every bit pattern decodes to a double (`< 2^1024`, at most 53 significant bits), every
+quotient of the model is again a double, and decoding is injective off the NaNs (`toBits ∘ ofBits = id`) -/
+theorem C11_f64_model_sane :
+    (∀ b, (F64.ofBits b).IsDouble) ∧ (∀ x y, (f64Div x y).IsDouble) ∧
+    (∀ b, b < 2 ^ 64 → F64.ofBits b ≠ .nan → F64.toBits (F64.ofBits b) = b) :=
+  ⟨QuantL.ofBits_isDouble, QuantL.f64Div_isDouble, QuantL.toBits_ofBits⟩
+
+/-- correct rounding, stated on the integers: `fl(n/d)` is representable, is within half a grid step (`2·|fl·d − n| ≤ d` on the
+subnormal/integer grid, relative `2^-53` above), never crosses a representable value, and fixes representable values -/
+theorem C11_f64_rounding (n d : Nat) (hd : 0 < d) :
+    QuantL.RepU (roundUnits n d) ∧
+    (2 * n ≤ 2 * (d * roundUnits n d) + d ∨ 2 ^ 53 * n ≤ 2 ^ 53 * (d * roundUnits n d) + n) ∧
+    (2 * (d * roundUnits n d) ≤ 2 * n + d ∨ 2 ^ 53 * (d * roundUnits n d) ≤ 2 ^ 53 * n + n) ∧
+    (∀ g, QuantL.RepU g → n ≤ d * g → roundUnits n d ≤ g) ∧ (∀ g, QuantL.RepU g → d * g ≤ n → g ≤ roundUnits n d) :=
+  ⟨QuantL.roundUnits_rep n d hd, QuantL.roundUnits_lower n d hd, QuantL.roundUnits_upper n d hd,
+    fun g hg h => QuantL.roundUnits_le_of_le n d g hd hg h, fun g hg h => QuantL.le_roundUnits_of_le n d g hd hg h⟩
+
+/-! ### the threshold is sharp, and concrete values (kernel evaluation; `0x…` are IEEE-754 bit patterns) -/
+namespace C11QuantEx
+
+/-- decoding: 1.0, −2.5, the largest subnormal, the least subnormal, ±0, ∞, NaN -/
+example : F64.ofBits 0x3FF0000000000000 = .fin false F64.unit ∧
+    F64.ofBits 0xC004000000000000 = .fin true (5 * 2 ^ 1073) ∧
+    F64.ofBits 0x000FFFFFFFFFFFFF = .fin false (2 ^ 52 - 1) ∧ F64.ofBits 1 = .fin false 1 ∧
+    F64.ofBits 0 = .fin false 0 ∧ F64.ofBits 0x8000000000000000 = .fin true 0 ∧
+    F64.ofBits 0x7FF0000000000000 = .inf false ∧ F64.ofBits 0x7FF8000000000000 = .nan ∧
+    F64.ofBits 0x7FEFFFFFFFFFFFFF = .fin false (F64.top - 2 ^ 2045) := by decide +kernel
+
+/-- division is correctly rounded: 1/10 = 0x3FB999999999999A, 1/3 = 0x3FD5555555555555, 1/32767 = 0x3F00002000400080;
+ties go to even on the subnormal grid (3·2^-1074 / 2 = 2·2^-1074, 5·2^-1074 / 2 = 2·2^-1074, 2^-1074 / 2 = 0);
+overflow gives ∞, 1/0 = ∞, 0/0 = NaN, −1/∞ = −0 -/
+example :
+    F64.toBits (f64Div (F64.ofBits 0x3FF0000000000000) (F64.ofBits 0x4024000000000000)) = 0x3FB999999999999A ∧
+    F64.toBits (f64Div (F64.ofBits 0x3FF0000000000000) (F64.ofBits 0x4008000000000000)) = 0x3FD5555555555555 ∧
+    F64.toBits (quantMultiplier (F64.ofBits 0x3FF0000000000000)) = 0x3F00002000400080 ∧
+    f64Div (F64.ofBits 3) (F64.ofBits 0x4000000000000000) = F64.ofBits 2 ∧
+    f64Div (F64.ofBits 5) (F64.ofBits 0x4000000000000000) = F64.ofBits 2 ∧
+    f64Div (F64.ofBits 1) (F64.ofBits 0x4000000000000000) = F64.ofBits 0 ∧
+    f64Div (F64.ofBits 0x7FEFFFFFFFFFFFFF) (F64.ofBits 0x3FE0000000000000) = .inf false ∧
+    f64Div (F64.ofBits 0x3FF0000000000000) (F64.ofBits 0) = .inf false ∧
+    f64Div (F64.ofBits 0) (F64.ofBits 0x8000000000000000) = .nan ∧
+    f64Div (F64.ofBits 0xBFF0000000000000) (F64.ofBits 0x7FF0000000000000) = .fin true 0 := by decide +kernel
+
+/-- quantising with `weight_max = 1.0`: 1.0 ↦ 32767, 0.1 ↦ 3276; with `weight_max = 2.5`: −2.5 ↦ −32767, 1.0 ↦ 13106;
+the largest subnormal as its own maximum ↦ 32767 -/
+example :
+    quantise (F64.ofBits 0x3FF0000000000000) (quantMultiplier (F64.ofBits 0x3FF0000000000000)) = .ok 32767 ∧
+    quantise (F64.ofBits 0x3FB999999999999A) (quantMultiplier (F64.ofBits 0x3FF0000000000000)) = .ok 3276 ∧
+    quantise (F64.ofBits 0xC004000000000000) (quantMultiplier (F64.ofBits 0x4004000000000000)) = .ok (-32767) ∧
+    quantise (F64.ofBits 0x3FF0000000000000) (quantMultiplier (F64.ofBits 0x4004000000000000)) = .ok 13106 ∧
+    quantise (F64.ofBits 0x000FFFFFFFFFFFFF) (quantMultiplier (F64.ofBits 0x000FFFFFFFFFFFFF)) = .ok 32767 := by
+  decide +kernel
+
+/-- the whole step on bias 1.0 and coefficients 0.1, −2.5 -/
+example : quantiseAll (F64.ofBits 0x3FF0000000000000) [F64.ofBits 0x3FB999999999999A, F64.ofBits 0xC004000000000000]
+    = .ok (13106, [1310, -32767]) := by decide +kernel
+
+/-- **the range claim is false for tiny subnormal maxima**: `M = x = 2^-1059` (`2^15` units, pattern `0x8000`) has the
+multiplier `2^-1074` (pattern `1`) and is quantised to 32768 -/
+example : F64.ofBits 0x8000 = .fin false (2 ^ 15) ∧ quantMultiplier (F64.ofBits 0x8000) = F64.ofBits 1 ∧
+    quantise (F64.ofBits 0x8000) (quantMultiplier (F64.ofBits 0x8000)) = .ok 32768 := by decide +kernel
+
+/-- **`T = 2^-1045` is the least power of two that works**: `M = (2^29 − 2^15)·2^-1074` (pattern `0x1FFF8000`) lies in
+`[T/2, T)`, its multiplier is `16383·2^-1074`, and it is quantised to 32768, so the hypothesis `T ≤ M` of
+`C11_quantise_range` cannot be relaxed to `T/2 ≤ M` -/
+example : F64.ofBits 0x1FFF8000 = .fin false (2 ^ 29 - 2 ^ 15) ∧
+    f64Le (F64.ofBits 0x10000000) (F64.ofBits 0x1FFF8000) = true ∧
+    f64Le C11_quantThreshold (F64.ofBits 0x1FFF8000) = false ∧
+    quantMultiplier (F64.ofBits 0x1FFF8000) = F64.ofBits 16383 ∧
+    quantise (F64.ofBits 0x1FFF8000) (quantMultiplier (F64.ofBits 0x1FFF8000)) = .ok 32768 := by decide +kernel
+
+/-- … and it is the last failure (`C11_quantise_range_sharp`): one unit more (pattern `0x1FFF8001`) has the multiplier
+`16384·2^-1074` and is quantised to 32766 -/
+example : f64Le (F64.ofBits 0x1FFF8001) C11_quantLastBad = false ∧
+    quantMultiplier (F64.ofBits 0x1FFF8001) = F64.ofBits 16384 ∧
+    quantise (F64.ofBits 0x1FFF8001) (quantMultiplier (F64.ofBits 0x1FFF8001)) = .ok 32766 := by decide +kernel
+
+/-- below the threshold the overshoot reaches a factor 1.5: `49150·2^-1074` (pattern `0xBFFE`) has the multiplier `2^-1074`
+and is quantised to 49150 (inside `i32`, far outside `i16`); `2^-1074` alone gives the multiplier 0, hence the error -/
+example : quantise (F64.ofBits 0xBFFE) (quantMultiplier (F64.ofBits 0xBFFE)) = .ok 49150 ∧
+    quantiseAll (F64.ofBits 0xBFFE) [] = .ok (49150, []) ∧
+    quantiseAll (F64.ofBits 1) [F64.ofBits 0x8000000000000001] = .err .invalidModel ∧
+    quantiseAll (F64.ofBits 0) [F64.ofBits 0x8000000000000000] = .err .invalidModel := by decide +kernel
+
+/-- at `T` itself the maximum is mapped to 32766 (multiplier `16385·2^-1074`), and so is the normal number
+`0x3FF06798004BBC2F`: the second alternative of `C11_quantise_max` occurs -/
+example : quantMultiplier C11_quantThreshold = F64.ofBits 16385 ∧
+    quantise C11_quantThreshold (quantMultiplier C11_quantThreshold) = .ok 32766 ∧
+    quantise (F64.ofBits 0x3FF06798004BBC2F) (quantMultiplier (F64.ofBits 0x3FF06798004BBC2F)) = .ok 32766 ∧
+    quantise (F64.ofBits 0xBFF06798004BBC2F) (quantMultiplier (F64.ofBits 0x3FF06798004BBC2F)) = .ok (-32766) := by
+  decide +kernel
+
+/-- non-vacuity of `C11_quantise_range` / `C11_quantise_total`: the hypotheses hold for `x = 0.1`, `M = 1.0` -/
+example : (F64.ofBits 0x3FB999999999999A).Finite ∧ (F64.ofBits 0x3FF0000000000000).Finite ∧
+    f64Le (f64Abs (F64.ofBits 0x3FB999999999999A)) (F64.ofBits 0x3FF0000000000000) = true ∧
+    f64Le C11_quantThreshold (F64.ofBits 0x3FF0000000000000) = true ∧
+    f64Le C11_quantThreshold (weightMax (F64.ofBits 0x3FF0000000000000) [F64.ofBits 0x3FB999999999999A]) = true := by
+  decide +kernel
+
+/-- where undefined behaviour does occur: a NaN or infinite coefficient (finite `weight_max` is then impossible or the quotient
+is not finite), a NaN bias, and — for a single quotient — a finite value over a multiplier that is too small
+(`1.0 / 2^-1074` overflows to ∞; `2^31·2^-1074 / 2^-1074 = 2^31` is outside `i32`, while `−2^31` is inside) -/
+example :
+    quantiseAll (F64.ofBits 0x3FF0000000000000) [F64.ofBits 0x7FF0000000000000] = .ub "to_int_unchecked" ∧
+    quantiseAll (F64.ofBits 0x3FF0000000000000) [F64.ofBits 0x7FF8000000000000] = .ub "to_int_unchecked" ∧
+    quantiseAll (F64.ofBits 0x7FF8000000000000) [] = .ub "to_int_unchecked" ∧
+    quantise (F64.ofBits 0x3FF0000000000000) (F64.ofBits 1) = .ub "to_int_unchecked" ∧
+    quantise (F64.ofBits 0x80000000) (F64.ofBits 1) = .ub "to_int_unchecked" ∧
+    quantise (F64.ofBits 0x8000000080000000) (F64.ofBits 1) = .ok (-2147483648) := by decide +kernel
+
+/-- the tag trainer's floor `1e-6` is a double above the threshold; three values of one classifier -/
+example : f64TagFloor.IsDouble ∧ f64Le C11_quantThreshold f64TagFloor = true ∧
+    quantiseTagAll [F64.ofBits 0x3FF0000000000000, F64.ofBits 0xBFB999999999999A, F64.ofBits 1] = .ok [32767, -3276, 0] ∧
+    quantiseTagAll [F64.ofBits 0x3E112E0BE826D695] = .ok [32] := by decide +kernel
+
+end C11QuantEx
+
+end V
+
